@@ -271,7 +271,7 @@ def fs_listing(tree):
     return {rel: ref.md5(content(sp)) for rel, sp in tree.items()}
 
 
-def build_once(w, tname, order, jobs, perm, statemode, threshold_direct):
+def build_once(w, tname, order, jobs, perm, statemode, threshold_direct, upload=False):
     """Returns (violations, info)."""
     import dvc_data.hashfile.build as B
     from dvc_data.hashfile.state import State
@@ -309,7 +309,7 @@ def build_once(w, tname, order, jobs, perm, statemode, threshold_direct):
             if r == 1 and statemode == "touched":
                 first = sorted(tree)[0]
                 stamp(os.path.join(ws, *first.split("/")))
-            _staging, meta, obj = B.build(odb, ws, LFS, "md5", checksum_jobs=jobs)
+            _staging, meta, obj = B.build(odb, ws, LFS, "md5", checksum_jobs=jobs, **({"upload": True} if upload else {}))
             if obj.oid != want_oid:
                 viol.append(("fs-identifier-differs-from-reference",
                              f"tree={tname} order={order} jobs={jobs} perm={perm} state={statemode} run={r} {obj.oid} != {want_oid}"))
@@ -359,12 +359,17 @@ def run_fs(case):
     order = case["order"]
     for jobs in (1, 2, 4):
         for perm in perms:
-            for sm in ("none", "cold", "warm", "touched", "partial-first", "partial-last"):
+            for sm, up in [(m, False) for m in ("none", "cold", "warm", "touched", "partial-first", "partial-last")] + \
+                    [(m, True) for m in ("none", "partial-first", "partial-last")]:
                 with World() as w:
-                    viol, info = build_once(w, tname, order, jobs, perm, sm, threshold_direct=(sm in ("none", "warm")))
+                    viol, info = build_once(w, tname, order, jobs, perm, sm,
+                                            threshold_direct=(sm in ("none", "warm") and not up), upload=up)
+                if up:
+                    viol = [(s_ + "/upload", d_) for s_, d_ in viol]
+                    res["vac"]["upload_builds"] = res["vac"].get("upload_builds", 0) + 1
                 res["n"] += 1
                 res["trans"] += 2 if sm in ("warm", "touched") else 1
-                d = digest_obj((tname, order, jobs, perm, sm))
+                d = digest_obj((tname, order, jobs, perm, sm, up))
                 res["states"].append(d)
                 res["nontrivial"].add(d)
                 if info["pool_used"]:
@@ -380,7 +385,7 @@ def run_fs(case):
                     if sig not in sigs:
                         sigs.add(sig)
                         res["viol"].append((sig, detail, {"part": "fs", "tree": tname, "order": order,
-                                                          "jobs": jobs, "perm": perm, "state": sm}))
+                                                          "jobs": jobs, "perm": perm, "state": sm, "upload": up}))
     res["outcomes"] = sorted(res["outcomes"])
     res["nontrivial"] = sorted(res["nontrivial"])
     res["sample"] = {"tree": tname, "creation_order": order, "jobs": [1, 2, 4], "pool completion orders": len(perms),
@@ -423,7 +428,9 @@ def replay(case):
         return check_pure(case["entries"], True)[0]
     if case["part"] == "fs":
         with World() as w:
-            return build_once(w, case["tree"], case["order"], case["jobs"], case["perm"], case["state"], True)[0]
+            v = build_once(w, case["tree"], case["order"], case["jobs"], case["perm"], case["state"],
+                           not case.get("upload"), upload=case.get("upload", False))[0]
+            return [(s_ + "/upload", d_) for s_, d_ in v] if case.get("upload") else v
     r = run_threads(case)
     return [(s, d) for s, d, _ in r["viol"]]
 
@@ -444,7 +451,7 @@ def run(ctx):
         "key parts never contain '/' (file-system names)",
     ]
     ctx.require("perms_gt1", "nested_prefixes", "pool_runs", "pool_perms_nonidentity", "state_warm_runs",
-                "real_pool_runs", "state_partial_runs")
+                "real_pool_runs", "state_partial_runs", "upload_builds")
     nsl = 16 if ctx.tier != "thorough" else 192
     cs = [{"part": "pure", "maxk": maxk, "slice": [i, nsl]} for i in range(nsl)]
     for tname, tree in FS_TREES.items():
